@@ -13,6 +13,7 @@ import (
 	"math/big"
 	"strings"
 
+	"go.sia.tech/core/consensus"
 	"go.sia.tech/core/types"
 	"go.sia.tech/coreutils/chain"
 	"verifharness/chainx"
@@ -172,6 +173,45 @@ func genCfg(r *vh.Run, rng *vh.RNG) chainx.GenCfg {
 	}
 }
 
+// LastPanic holds the message of the last recovered panic (diagnostics).
+var LastPanic string
+
+// SubmitV2 calls AddValidatedV2Blocks with the twins' full states (nStates of them).
+func SubmitV2(t *chainx.Tree, nd *chainx.Node, batch []int, nStates int) (res string) {
+	defer func() {
+		if r := recover(); r != nil {
+			LastPanic = fmt.Sprint(r)
+			res = "panic"
+		}
+	}()
+	var states []consensus.State
+	for i := 0; i < nStates; i++ {
+		if i < len(batch) {
+			states = append(states, t.Blocks[batch[i]].Full)
+		} else {
+			states = append(states, t.Blocks[batch[len(batch)-1]].Full)
+		}
+	}
+	return ErrKind(nd.CM.AddValidatedV2Blocks(t.Get(batch), states))
+}
+
+// preValidated reports whether batch is what an honest syncer hands to AddValidatedV2Blocks: a
+// parent-linked run of fully valid v2 blocks.
+func preValidated(t *chainx.Tree, batch []int) bool {
+	for k, id := range batch {
+		b := t.Blocks[id]
+		// the pre-validated path stores an empty supplement, which is the right supplement only for
+		// v2-only blocks above the require height (what the syncer's instant sync hands over)
+		if !t.AllValid(id) || !b.V2 || id == 0 || b.Height <= t.Net.N.HardforkV2.RequireHeight || len(b.Block.Transactions) > 0 {
+			return false
+		}
+		if k > 0 && b.Parent != batch[k-1] {
+			return false
+		}
+	}
+	return len(batch) > 0
+}
+
 // RunTree submits one tree in one schedule and registers the case.
 func RunTree(r *vh.Run, name string, t *chainx.Tree, sched [][]int) {
 	nd := t.Net.MustNode()
@@ -180,20 +220,33 @@ func RunTree(r *vh.Run, name string, t *chainx.Tree, sched [][]int) {
 		c.Op(b.DeclLine(), "ok")
 	}
 	reorgs, failed, errs := 0, 0, 0
-	for _, batch := range sched {
+	for bi, batch := range sched {
 		before := Observe(t, nd, "x")
 		beforeState := encState(nd)
 		beforeTip, _ := t.Lookup(nd.CM.Tip().ID)
 		beforeN := len(nd.Reorgs)
-		res := Submit(nd, t.Get(batch))
+		var res string
 		var sb strings.Builder
-		sb.WriteString("add")
+		// every third eligible batch goes through the pre-validated path, sometimes with a wrong
+		// number of states
+		if preValidated(t, batch) && (len(batch)+bi)%3 == 0 {
+			nStates := len(batch)
+			if (len(batch)+bi)%5 == 0 {
+				nStates++
+			}
+			res = SubmitV2(t, nd, batch, nStates)
+			fmt.Fprintf(&sb, "addv2 %d", nStates)
+			c.Tags = append(c.Tags, "addv2")
+		} else {
+			res = Submit(nd, t.Get(batch))
+			sb.WriteString("add")
+		}
 		for _, id := range batch {
 			fmt.Fprintf(&sb, " %d", id)
 		}
 		c.Op(sb.String(), Observe(t, nd, res))
 		if res == "panic" {
-			c.Oracle("addblocks-panic", "AddBlocks panicked on batch %v", batch)
+			c.Oracle("addblocks-panic", "AddBlocks/AddValidatedV2Blocks panicked on batch %v: %s", batch, LastPanic)
 			break
 		}
 		Audit(c, t, nd, res, before, beforeState, beforeTip, beforeN)
